@@ -21,6 +21,10 @@ def psDel (l : List (String × Bool × Bool)) (k : String) : List (String × Boo
 /-- loadContacts (pres.go:69-80) over store.Users.GetSubs: every live subscription of the user; a p2p topic is indexed by the other
 user, the user's own `me` is skipped -/
 def World.contactsOf (w : World) (u : Uid) : List (String × Bool × Bool) :=
+  -- the user's own `fnd` topic is a subscription like any other
+  let acc0 : List (String × Bool × Bool) := match w.fndSubs.find? (fun s => s.user = u ∧ !s.deleted) with
+    | some s => [("fnd:" ++ u, false, isPresencer (s.want &&& s.given) && isJoiner (s.want &&& s.given))]
+    | none => []
   w.store.foldl (fun acc r =>
     let acc := match r.subs.find? (fun s => s.user = u ∧ !s.deleted) with
       | some s =>
@@ -29,7 +33,7 @@ def World.contactsOf (w : World) (u : Uid) : List (String × Bool × Bool) :=
       | none => acc
     match r.csubs.find? (fun s => s.user = u ∧ !s.deleted) with
       | some s => psSet acc ("chn:" ++ r.name) (false, isPresencer (s.want &&& s.given) && isJoiner (s.want &&& s.given))
-      | none => acc) []
+      | none => acc) acc0
 
 /-- notifyOnOrSkip (pres.go:229-250): `none` = skipped; otherwise the `topic` field of the notification -/
 def notifyOnOrSkip (topic what : String) (online : Bool) : Option String :=
@@ -169,7 +173,7 @@ def Ctx.initMe (c : Ctx) (a : Actor) : Ctx × Option Topic :=
     let (c, ok) := c.call "SubsForTopic"
     if !ok then (c.emit a.sid (ctrl 500 tn), none) else
     let rows := c.w.meSubs.filter (fun s => s.user = a.uid ∧ !s.deleted)
-    let t : Topic := { name := tn, isMe := true, auth := u.auth, anon := u.anon, pub := some ("pub" ++ a.uid),
+    let t : Topic := { name := tn, isMe := true, auth := u.auth, anon := u.anon, pub := some ("pub" ++ a.uid), tags := u.tags,
                        perUser := rows.map (fun s => (s.user, pudOfRow s)), hasSupd := true }
     (c.putLive t, some t)
 
